@@ -1234,4 +1234,48 @@ example : decodeClientPollRequest "1.1\n{\"offer\":\"o\"}".toList = .err := by d
 example : decodeClientPollResponse "{}".toList = .err := by decide +kernel
 example : decodePollResponseWithRelayURL "[]".toList = .err := by decide +kernel
 
+/-! ## No two valid messages share an encoding (corollaries of the round trips)
+
+The broker pairs a client with a proxy by what these messages carry; were two different valid messages encoded
+alike, the receiving side could not tell which offer, answer, session id, relay URL or fingerprint was meant. -/
+
+theorem answer_req_injective (a s a' s' : Text) (ha : a ≠ []) (hs : s ≠ []) (ha' : a' ≠ []) (hs' : s' ≠ [])
+    (h : encodeAnswerRequest (ofText a) (ofText s) = encodeAnswerRequest (ofText a') (ofText s')) :
+    a = a' ∧ s = s' := by
+  have h1 := answer_req_rt a s ha hs
+  have h2 := answer_req_rt a' s' ha' hs'
+  rw [h, h2] at h1
+  injection h1 with e
+  exact ⟨(Prod.mk.inj e).1.symm, (Prod.mk.inj e).2.symm⟩
+
+theorem client_resp_injective (a e a' e' : Text) (h1 : a ≠ [] ∨ e ≠ []) (h2 : a' ≠ [] ∨ e' ≠ [])
+    (h : encodeClientPollResponse (ofText a) (ofText e) = encodeClientPollResponse (ofText a') (ofText e')) :
+    a = a' ∧ e = e' := by
+  have g1 := client_resp_rt a e h1
+  have g2 := client_resp_rt a' e' h2
+  rw [h, g2] at g1
+  injection g1 with e
+  exact ⟨(Prod.mk.inj e).1.symm, (Prod.mk.inj e).2.symm⟩
+
+theorem poll_resp_match_injective (o n u r o' n' u' r' : Text) (ho : o ≠ []) (ho' : o' ≠ [])
+    (h : encodePollResponseWithRelayURL (ofText o) true (ofText n) (ofText u) (ofText r)
+       = encodePollResponseWithRelayURL (ofText o') true (ofText n') (ofText u') (ofText r')) :
+    o = o' ∧ normNat n = normNat n' ∧ u = u' := by
+  have g1 := proxy_poll_resp_match_rt o n u r ho
+  have g2 := proxy_poll_resp_match_rt o' n' u' r' ho'
+  rw [h, g2] at g1
+  injection g1 with e1 e2 e3
+  exact ⟨e1.symm, e2.symm, e3.symm⟩
+
+theorem client_req_injective (o n f o' n' f' : Text) (ho : o ≠ []) (ho' : o' ≠ []) (hn : NatValid n) (hn' : NatValid n')
+    (hf : f = [] ∨ fingerprintOk f = true) (hf' : f' = [] ∨ fingerprintOk f' = true)
+    (h : encodeClientPollRequest (ofText o) (ofText n) (ofText f)
+       = encodeClientPollRequest (ofText o') (ofText n') (ofText f')) :
+    o = o' ∧ normNat n = normNat n' ∧ normFingerprint f = normFingerprint f' := by
+  have g1 := client_req_rt o n f ho hn hf
+  have g2 := client_req_rt o' n' f' ho' hn' hf'
+  rw [h, g2] at g1
+  injection g1 with e
+  injection e with e1 e2 e3
+  exact ⟨e1.symm, e2.symm, e3.symm⟩
 end Snowflake.Messages.C12
